@@ -1,8 +1,10 @@
 """C19 - point queries at interior cell centres return the stored cell value."""
 from props.C01 import Reader, ASSUMPTIONS as A01, TRUSTED as T01
 
-ASSUMPTIONS = A01 + ["the box matching and index conversion of LevelDataSelector.__call__ are covered by the bounded run-time "
-                     "layer in this round; the proof layer covers the box read the query delegates to (C01 readers)",
+ASSUMPTIONS = A01 + ["the box matching loop and the finest-level choice of LevelDataSelector.__call__ are covered by the bounded run-time "
+                     "layer; the proof layer covers the single-box branch (which box is read, index conversion of the point; "
+                     "fragment of __call__ extracted mechanically, number of levels a skeleton parameter, reals for floats) and "
+                     "the box read the query delegates to (C01 readers)",
                      "scipy.ndimage.map_coordinates at integer coordinates reproduces the sample (checked to 1e-9 relative)"]
 TRUSTED = T01 + ["scipy.ndimage.map_coordinates (opaque)"]
 
@@ -13,7 +15,13 @@ def tasks(tier):
         r = Reader(fn, 3, form)
         r.prop = "C19"
         out.append(r)
-    return out
+    from props.C19_api import api_tasks
+    return out + api_tasks(tier)
+
+
+def canaries(tier):
+    from props.C19_api import api_canaries
+    return api_canaries()
 
 
 SCENARIO_TIMEOUT = 300
